@@ -9,6 +9,7 @@ import (
 	"github.com/relex/gotils/promexporter/promreg"
 	"github.com/relex/slog-agent/base"
 	"github.com/relex/slog-agent/defs"
+	"github.com/relex/slog-agent/util/vhook"
 )
 
 // ClientWorker is a common client implementing ChunkConsumer
@@ -88,6 +89,7 @@ func (client *ClientWorker) run() {
 		for {
 			var retry reconnectPolicy
 			leftovers, retry = client.runSession(leftovers)
+			vhook.E("Policy", "p", string(retry), "n", len(leftovers))
 			switch retry {
 			case noReconnect:
 				client.logger.Infof("stop requested (session)")
